@@ -7,8 +7,9 @@ import json, subprocess, sys
 br = sys.argv[1]
 subst = dict(a.split("=", 1) for a in sys.argv[2:])
 sh = lambda *a: subprocess.run(a, cwd="/verif", capture_output=True, text=True)
-if sh("git", "status", "--porcelain", "--untracked-files=no").stdout.strip():
-    sys.exit("commit your own changes first")
+dirty = [l for l in sh("git", "status", "--porcelain", "--untracked-files=no").stdout.split("\n") if l.strip() and "evidence/" not in l]
+if dirty:
+    sys.exit("commit your own changes first: %s" % dirty)
 base = sh("git", "merge-base", "HEAD", br).stdout.strip()
 load = lambda rev: json.loads(sh("git", "show", rev + ":known_findings.json").stdout)
 kb, kt, ko = load(base), load(br), load("HEAD")
